@@ -658,9 +658,15 @@ class Reaction(Object):
         # make the old genes aware they are no longer involved in this reaction
         for g in old_genes.difference(new_genes):
             try:
+                # A reaction that was removed from a model keeps its genes but is
+                # no longer listed by them: only restore what was there.
+                listed = self in g._reaction
                 self._dissociate_gene(g)
                 if context:
-                    context(partial(self._associate_gene, g))
+                    if listed:
+                        context(partial(self._associate_gene, g))
+                    else:
+                        context(partial(self._genes.add, g))
             except KeyError:
                 warn(f"could not remove old gene {g.id} from reaction {self.id}")
             if g in self._genes:  # if an old gene is still a new gene
